@@ -236,9 +236,12 @@ class TAX1099MISC_V100(Aggregate):
 
     @classmethod
     def validate_args(cls, *args, **kwargs):
-        if "STTAXWH" in kwargs and "PAYERSTATE" not in kwargs:
+        if (
+            kwargs.get("sttaxwh", None) is not None
+            and kwargs.get("payerstate", None) is None
+        ):
             msg = "{}: payerstate must also be provided if sttaxwh is provided"
-            raise ValueError(msg)
+            raise ValueError(msg.format(cls.__name__))
         super().validate_args(*args, **kwargs)
 
 
